@@ -2065,3 +2065,109 @@ func c18OffsetPrecision(c *Ctx, r *Report, rule string) {
 	}
 	r.Floor(rule, 4, "RFC822Z, RFC1123Z, RFC3339, RFC3339N, NGINX")
 }
+
+// c14MoreCount (C14-g/more-count): a "(n more)" note says how many rows or
+// columns are not shown: n = len(all) - shown. It is printed under a guard
+// `shown < len(all)`; the subtrahend must be the guard's `shown`, or a value
+// equal to it there: when `shown` is defined exactly once as
+// min(len(all), limit) and never re-bound, then `shown < len(all)` implies
+// shown == limit, so `len(all) - limit` is accepted too. Anything else (the
+// displayed count capped a second time, the configured limit used while
+// fewer are drawn) makes the note disagree with what is on screen.
+func c14MoreCount(c *Ctx, r *Report, rule string) {
+	n := 0
+	for _, fi := range c.AllFuncDecls("rare/pkg/multiterm/termrenderers") {
+		info := fi.Pkg.TypesInfo
+		ast.Inspect(fi.Decl.Body, func(x ast.Node) bool {
+			is, ok := x.(*ast.IfStmt)
+			if !ok {
+				return true
+			}
+			be, ok := ast.Unparen(is.Cond).(*ast.BinaryExpr)
+			if !ok {
+				return true
+			}
+			var all, shown ast.Expr
+			isLen := func(e ast.Expr) bool {
+				ce, ok := ast.Unparen(e).(*ast.CallExpr)
+				return ok && calleeName(info, ce) == "builtin.len" && len(ce.Args) == 1
+			}
+			switch {
+			case be.Op == token.GTR && isLen(be.X):
+				all, shown = be.X, be.Y
+			case be.Op == token.LSS && isLen(be.Y):
+				all, shown = be.Y, be.X
+			default:
+				return true
+			}
+			// a "(%d more)" text written directly in the guarded block
+			for _, st := range is.Body.List {
+				ast.Inspect(st, func(y ast.Node) bool {
+					ce, ok := y.(*ast.CallExpr)
+					if !ok || len(ce.Args) < 2 {
+						return true
+					}
+					isNote := false
+					for _, a := range ce.Args {
+						if sv, isS := constString(info, a); isS && strings.Contains(sv, "more)") {
+							isNote = true
+						}
+					}
+					if !isNote {
+						return true
+					}
+					for _, a := range ce.Args {
+						sub, isSub := ast.Unparen(a).(*ast.BinaryExpr)
+						if !isSub || sub.Op != token.SUB || exprStr(sub.X) != exprStr(all) {
+							continue
+						}
+						n++
+						okNote := exprStr(ast.Unparen(sub.Y)) == exprStr(ast.Unparen(shown))
+						why := "the note subtracts the guard's own count"
+						if !okNote {
+							// shown := min(len(all), limit), bound exactly once, and the note subtracts limit
+							if so := identObj(info, shown); so != nil {
+								defs := 0
+								var def ast.Expr
+								ast.Inspect(fi.Decl.Body, func(z ast.Node) bool {
+									switch t := z.(type) {
+									case *ast.AssignStmt:
+										for i, l := range t.Lhs {
+											if identObj(info, l) == so {
+												defs++
+												if len(t.Rhs) == len(t.Lhs) {
+													def = t.Rhs[i]
+												}
+											}
+										}
+									case *ast.IncDecStmt:
+										if identObj(info, t.X) == so {
+											defs += 2
+										}
+									}
+									return true
+								})
+								if mc, isCall := ast.Unparen(def).(*ast.CallExpr); defs == 1 && isCall && len(mc.Args) == 2 {
+									nm := calleeName(info, mc)
+									if nm == "builtin.min" || strings.HasSuffix(nm, ".mini") || strings.HasSuffix(nm, ".min") {
+										for k := 0; k < 2; k++ {
+											if exprStr(ast.Unparen(mc.Args[k])) == exprStr(all) && exprStr(ast.Unparen(mc.Args[1-k])) == exprStr(ast.Unparen(sub.Y)) {
+												okNote = true
+												why = "the displayed count is min(len, limit), bound once: under the guard it equals the limit the note subtracts"
+											}
+										}
+									}
+								}
+							}
+						}
+						r.Check(okNote, rule, fi.Name, exprStr(sub), c.Pos(sub.Pos()), "agreement: "+why,
+							"the \"(n more)\" note is computed as "+exprStr(sub)+" under the guard "+exprStr(is.Cond)+", but "+exprStr(sub.Y)+" is not (provably) the number shown there: when the displayed count is limited a second time (to the terminal width, say) the note reports too few, zero or a negative number of hidden rows / columns")
+					}
+					return true
+				})
+			}
+			return true
+		})
+	}
+	r.Floor(rule, 3, "heatmap rows, heatmap columns, spark rows")
+}
